@@ -319,7 +319,9 @@ impl Evaluator {
             }
         }
 
-        eval
+        // A heuristic score must never look like a mate score: with enough extra material
+        // (nine queens against a bare king) the sum alone passes the terminal threshold.
+        Evaluation(eval.0.clamp(Evaluation::NEG_INF.0 + 1, Evaluation::POS_INF.0 - 1))
     }
 }
 
